@@ -433,7 +433,11 @@ def percent_format(I, fmt, arg):
                 if buf:
                     parts.append(zstr(buf))
                     buf = ''
-                parts.append(to_str(I, vals[k]).t)
+                vk = unopt(I, vals[k])
+                if fmt.is_bytes and isinstance(vk, VStr) and vk.is_bytes:
+                    parts.append(vk.t)
+                else:
+                    parts.append(to_str(I, vk).t)
                 k += 1
             else:
                 raise Unsupported('%% format %r' % c)
@@ -507,6 +511,20 @@ def str_join(I, sepv, coll):
         if not parts:
             return VStr('', sepv.is_bytes)
         return VStr(z3.Concat(*parts) if len(parts) > 1 else parts[0], sepv.is_bytes)
+    if type(coll).__name__ == '_LazyComp':
+        # generator expression over a symbolic list: supported when it is (equivalent to) the identity map without an
+        # effective filter, e.g. (s if isinstance(s, bytes) else s.encode(enc) for s in parts if s is not None) on a list of bytes
+        i, guard, elt, filtered = I.comp_symbolic(coll.node, coll.it)
+        it = coll.it
+        same = isinstance(elt, VStr) and z3.eq(z3.simplify(elt.t), z3.simplify(z3.Select(it.arrs[0], i)))
+        window = z3.And(it.lo <= i, i < it.hi)
+        if not same or I.st.feasible(z3.And(window, z3.Not(guard))):
+            raise Unsupported('join over a generator expression that transforms or filters a symbolic list')
+        coll = it
+    if isinstance(coll, VList) and z3.is_string_value(sep) and sep.as_string() == '':
+        # ''.join(parts) is the concatenation of the parts (the flatten view)
+        I.assume(z3.Implies(coll.hi <= coll.lo, flat(coll) == zstr('')))
+        return VStr(flat(coll), sepv.is_bytes)
     if isinstance(coll, VList):
         I.st.trusted_used.add('str.join(list): uninterpreted py_join with lemma: a character occurring in the result occurs '
                               'in the separator or in some element; empty list gives the empty string; singleton gives the element')
